@@ -50,7 +50,7 @@ func TreeHash() string {
 		h.Write(b)
 		h.Write([]byte{0})
 	}
-	for _, f := range []string{"wdrive.c"} {
+	for _, f := range []string{"wdrive.c", "verif_rt.h"} {
 		b, _ := os.ReadFile(filepath.Join(drv.VerifDir, "c", f))
 		h.Write(b)
 	}
@@ -204,6 +204,13 @@ var (
 	VNoSimd = Variant{Name: "nosimd", CC: "gcc", GenVar: "plain",
 		CFlags: []string{"-O2", "-DWUFFS_CONFIG__AVOID_CPU_ARCH", "-DWDRIVE_WRAP_ALLOC"},
 		LFlags: []string{"-Wl,--wrap=malloc", "-Wl,--wrap=calloc", "-Wl,--wrap=realloc", "-Wl,--wrap=free"}}
+	// VChecked compiles the C emitted by the verif-tagged generator with
+	// WUFFS_VERIF=ranges (run-time assertions of the checker's obligations)
+	// under ASan+UBSan.
+	VChecked = Variant{Name: "checked", CC: "gcc", GenVar: "checked",
+		CFlags: []string{"-O1", "-g", "-fno-omit-frame-pointer", "-fsanitize=address,undefined", "-fno-sanitize=nonnull-attribute,returns-nonnull-attribute", "-fno-sanitize-recover=all",
+			"-include", filepath.Join(drv.VerifDir, "c", "verif_rt.h")},
+		LFlags: []string{"-fsanitize=address,undefined"}}
 	VAsanNoSimd = Variant{Name: "asan-nosimd", CC: "gcc", GenVar: "plain",
 		CFlags: []string{"-O1", "-g", "-fno-omit-frame-pointer", "-fsanitize=address,undefined", "-fno-sanitize=nonnull-attribute,returns-nonnull-attribute", "-fno-sanitize-recover=all", "-DWUFFS_CONFIG__AVOID_CPU_ARCH"},
 		LFlags: []string{"-fsanitize=address,undefined"}}
